@@ -148,6 +148,7 @@ fn run_family(name: &str, inputs: &[String], out_all: &mut BTreeMap<String, (u64
         let mut o = Out::default();
         for i in r {
             o.n += 1;
+            mc::watch::progress(|| case_line(&inputs[i]));
             let (c, v) = judge(&inputs[i]);
             *o.classes.entry(format!("{:?}", c)).or_default() += 1;
             if let Some((k, w)) = v {
